@@ -362,13 +362,13 @@ DecodeTop(bs, p, ctx, cat, forest, stats) ==
                        tables |-> stats.tables, bvms |-> stats.bvms, nops |-> stats.nops]
   ELSE
   LET r == DecodeAt(bs, p, Len(bs), ctx)
-  IN IF ~r.ok THEN r
+  IN IF ~r.ok THEN [ok |-> FALSE, why |-> r.why, at |-> r.at, top |-> p]     \* top: where the failing top-level value starts
      ELSE IF r.kind = "bvm" THEN DecodeTop(bs, r.next, SystemSlots, cat, forest,
                                            [stats EXCEPT !.bvms = @ + 1])
      ELSE IF r.kind = "nop" THEN DecodeTop(bs, r.next, ctx, cat, forest, [stats EXCEPT !.nops = @ + 1])
      ELSE IF IsLST(r.v)
           THEN LET a == ApplyLST(r.v, ctx, cat)
-               IN IF ~a.ok THEN [a EXCEPT !.at = p]
+               IN IF ~a.ok THEN [ok |-> FALSE, why |-> a.why, at |-> p, top |-> p]
                   ELSE DecodeTop(bs, r.next, a.ctx, cat, forest, [stats EXCEPT !.tables = @ + 1])
      ELSE DecodeTop(bs, r.next, ctx, cat, Append(forest, r.v), stats)
 
@@ -376,8 +376,16 @@ BVM == <<224, 1, 0, 234>>
 
 BinDecode(bs, cat) ==
   IF Len(bs) < 4 \/ SubSeq(bs, 1, 4) # BVM
-  THEN Rej("stream does not start with the version marker E0 01 00 EA", 1)
+  THEN [ok |-> FALSE, why |-> "stream does not start with the version marker E0 01 00 EA", at |-> 1, top |-> 1]
   ELSE DecodeTop(bs, 1, SystemSlots, cat, <<>>, [tables |-> 0, bvms |-> 0, nops |-> 0])
+
+\* Does the top-level value starting at p look like a local symbol table (annotation wrapper whose
+\* first annotation is $ion_symbol_table = SID 3)?  Used to tell where a malformation sits.
+LooksLikeLST(bs, p) ==
+  /\ p <= Len(bs) /\ bs[p] \div 16 = 14 /\ bs[p] % 16 \notin {0, 15}
+  /\ LET lr == IF bs[p] % 16 = 14 THEN VarUInt(bs, p + 1, Len(bs)) ELSE [ok |-> TRUE, val |-> 0, next |-> p + 1]
+     IN lr.ok /\ LET al == VarUInt(bs, lr.next, Len(bs))
+                 IN al.ok /\ LET a1 == VarUInt(bs, al.next, Len(bs)) IN a1.ok /\ a1.val = 3
 
 \* Is a rejection one the Ion specification leaves open / an implementation limit?
 IsOpenReason(why) == why \in {"open: repeated import field", "limit: import max_id of 65536 or more",
